@@ -51,6 +51,27 @@ CtrlFrom(bs, i, end) ==
   ELSE IF f.kind \in {"data", "headers", "settings"} THEN Close({E_UNEXPECTED})
   ELSE Close({E_UNEXPECTED, E_FRAME})                       \* 0x41 on the control stream
 
+\* the peer's whole control stream, from its type byte (RFC 9114 6.2.1: SETTINGS is the first
+\* frame, anything else is H3_MISSING_SETTINGS; 7.2.4.1: defective SETTINGS is H3_SETTINGS_ERROR)
+E_MISSING_SETTINGS == 266
+CtrlStream(bs, end) ==
+  LET h == StreamHeaderAt(bs, 1) IN
+  IF h.k # "ok" \/ h.kind # "control" THEN [k |-> "free"]
+  ELSE LET i == 1 + h.n
+           f == FrameAt(bs, i) IN
+    IF f.k = "more" THEN
+      IF end = "open" THEN [k |-> "pending"]      \* no SETTINGS yet: nothing may happen
+      ELSE IF end = "fin" /\ i <= Len(bs) THEN Close({E_CLOSED_CRITICAL, E_FRAME})
+      ELSE Close({E_CLOSED_CRITICAL})
+    ELSE IF f.kind = "unknown" THEN [k |-> "free"]
+    ELSE IF f.k = "err" THEN
+      Close(IF f.e = "sid" THEN {E_ID, E_UNEXPECTED, E_FRAME, E_MISSING_SETTINGS} ELSE {E_LOAD})
+    ELSE IF f.kind = "grease" THEN Close({E_MISSING_SETTINGS})
+    ELSE IF f.kind \in {"data", "headers"} THEN Close({E_MISSING_SETTINGS, E_UNEXPECTED})
+    ELSE IF f.kind = "wt" THEN Close({E_MISSING_SETTINGS, E_UNEXPECTED, E_FRAME})
+    ELSE LET d == SettingDefects(SubSeq(bs, f.pfrom, f.pfrom + f.plen - 1), 1, {}, {}) IN
+      IF d # {} THEN Close(d) ELSE CtrlFrom(bs, i + f.n, end)
+
 \* a new unidirectional stream. st: [qenc, qdec] (the control stream exists already)
 UniOutcome(bs, end, st, live) ==
   LET h == StreamHeaderAt(bs, 1) IN
@@ -101,10 +122,27 @@ BiFrom(bs, i, end, live, seen) ==
 
 BiOutcome(bs, end, live) == BiFrom(bs, 1, end, live, "none")
 
-\* continuation of the established session's CONNECT stream
+\* continuation of the established session's CONNECT stream: which code a protocol failure carries
+AnyReqCode == {E_UNEXPECTED, E_FRAME, E_CLOSED_CRITICAL, E_LOAD, E_ID, 51}
+RECURSIVE ReqCodes(_, _, _)
+ReqCodes(bs, i, end) ==
+  LET f == FrameAt(bs, i) IN
+  IF f.k = "more" THEN
+    IF end = "fin" /\ i <= Len(bs) THEN {E_FRAME}            \* RFC 9114 7.1: ends inside a frame
+    ELSE AnyReqCode
+  ELSE IF f.k = "err" THEN
+    IF f.kind = "unknown" THEN AnyReqCode
+    ELSE IF f.e = "sid" THEN {E_ID, E_UNEXPECTED} ELSE {E_LOAD}
+  ELSE IF f.kind \in {"unknown", "grease", "headers"} THEN ReqCodes(bs, i + f.n, end)
+  ELSE IF f.kind \in {"settings", "wt"} THEN {E_UNEXPECTED}   \* RFC 9114 7.2.4; a signal that is not first
+  ELSE IF f.kind = "data" THEN
+    LET c == CapsuleParse(SubSeq(bs, f.pfrom, f.pfrom + f.plen - 1)) IN
+    IF c.k = "none" THEN ReqCodes(bs, i + f.n, end) ELSE AnyReqCode
+  ELSE AnyReqCode
+
 ReqOutcome(bs, end) ==
   LET s == SessionOutcome(bs, end) IN
   IF s.k = "alive" THEN Alive
   ELSE IF s.k = "closed" THEN [k |-> "session_closed"]
-  ELSE [k |-> "close", codes |-> {E_UNEXPECTED, E_FRAME, E_CLOSED_CRITICAL, E_LOAD, E_ID, 51}]
+  ELSE [k |-> "close", codes |-> ReqCodes(bs, 1, end)]
 =============================================================================
